@@ -427,6 +427,20 @@ def _run_item(item) -> Acc:
                 acc.nt(("invalid", carrier, bad))
                 if r["exit_code"] != 2:
                     acc.fail({"option": "invalid-value", "carrier": carrier, "mode": f"exit{r['exit_code']}"}, {"config": cfg, "carrier": carrier, "cmd": cmd, "files": files}, {"exit": 2}, {"exit": r["exit_code"]}, "documented-invalid value (non-positive limit) must end the run with exit 2")
+        # the same documented-invalid values given on the command line
+        for lname, flag in (("nesting", "--max-depth"), ("srp", "--max-methods"), ("srp", "--max-loc"), ("dry", "--min-lines"), ("pipeline", "--min-continues")):
+            st = _linter_setup(lname)
+            if st is None:
+                continue
+            cmd2, prefix2, files2, base2, _sec = st
+            for bad in ("0", "-1"):
+                vs, r = _run(cmd2, prefix2, files2, base2 or None, "yaml", extra_argv=[flag, bad])
+                acc.case()
+                acc.edge()
+                acc.valid()
+                acc.nt(("invalid-cli", cmd2, flag, bad))
+                if r["exit_code"] != 2:
+                    acc.fail({"option": "invalid-value", "carrier": "command-line", "flag": flag, "value": "zero" if bad == "0" else "negative", "mode": f"exit{r['exit_code']}"}, {"cmd": cmd2, "argv": [flag, bad], "files": files2, "config": base2 or {}, "carrier": "yaml"}, {"exit": 2}, {"exit": r["exit_code"]}, "a non-positive limit on the command line must end the run with exit code 2")
         garbage = {"yaml": (".thailint.yaml", "nesting: [unclosed\n  x: {"), "json": (".thailint.json", '{"nesting": '), "pyproject": ("pyproject.toml", "[tool.thailint\nnesting = {"), "config-yaml": ("custom-config.yaml", "a: [b\n c: {"), "config-json": ("custom-config.json", '{"a": '), "group-config-yaml": ("custom-config.yaml", "a: [b\n c: {")}
         for name in load.linters():
             st = _linter_setup(name)
